@@ -79,6 +79,26 @@ def run_shard(rec):
                 if bytes_mode:
                     ins = [t.encode('latin-1') for t in ins]
                 run_grammar(rec, G, ins, ('zoo', ztag, cname, 'b' if bytes_mode else 't'), trace=(idx % 4 == 0))
+    # Phase A3: choices / Longest / sequences whose operands are regexes with groups, back-references,
+    # named groups, inline flags, alternation and anchors: every ordered pair (each operand is its own
+    # pattern -- group numbers, flags and alternation never leak from one into the other)
+    REGEXES = ['(a)(b)', '(a|b)\\1', '(?P<q>[ab])(?P=q)', 'a|ab', '(?i)b', 'b$', '(a)?b', '(?:a|b)(a)\\1', '[ab](?=a)', 'a{2}|b']
+    for r1 in REGEXES:
+        for r2 in REGEXES:
+            for icase in (False, True):
+                e1, e2 = ('re', r1, icase), ('re', r2, False)
+                for cname, cx in (('alt', ('seq', [('alt', [e1, e2]), ('re', '[ab]*', False)])),
+                                  ('alt3', ('seq', [('alt', [('str', 'bb'), e1, e2, ('str', 'a')]), ('re', '[ab]*', False)])),
+                                  ('longest', ('seq', [('longest', [e1, e2]), ('re', '[ab]*', False)])),
+                                  ('seq', ('seq', [e1, ('opt', e2), ('re', '[ab]*', False)]))):
+                    idx += 1
+                    if not rec.mine(idx):
+                        continue
+                    G = gast.simple_grammar({'start': cx})
+                    if not gen.well_formed(G):
+                        rec.drop()
+                        continue
+                    run_grammar(rec, G, list(gen.all_strings('abB' if icase else 'ab', 4)), ('regex-pair', cname, r1, r2), trace=(idx % 6 == 0))
     rec.count('phaseA_done')
     # Phase B: depth 2 over the reduced leaf set (seed-rotated sample in quick)
     reduced = [('str', 'a'), ('str', 'ab'), ('re', 'a?', False), ('ref', 'Rab')]
